@@ -99,6 +99,10 @@ func (s *PrintCtx) set(e *Entry, lvl Level, timestamp time.Time, stackFrame uint
 	s.stackFrame = stackFrame
 	s.msg = msg
 	s.kvps = kvps
+
+	// a pooled PrintCtx must not carry the colours of the record formatted
+	// before: a level without registered colours is printed with these.
+	s.clr, s.bg = clrBasic, clrNone
 }
 
 //
